@@ -292,6 +292,10 @@ func init() {
 		c.S.W.noteEval("blocked", App("blocked", a[0].(*BytesV).T), a[0].(*BytesV).T)
 		return ret1(App("blocked", a[0].(*BytesV).T))
 	})
+	reg(zz+"TypeConfusion", func(c *CallCtx, a []Value) []Outcome {
+		_, ok := c.S.W.Ghost["TypeConfusion"]
+		return ret1(MkBool(ok))
+	})
 	reg(zz+"StoreWrites", func(c *CallCtx, a []Value) []Outcome { return ret1(MkI(int64(c.S.W.Writes))) })
 	reg(zz+"EventCount", func(c *CallCtx, a []Value) []Outcome { return ret1(MkI(int64(c.S.W.Events))) })
 	// tables (bank balances and supply): (k1,k2) -> big.Int over an arbitrary non-negative base
